@@ -5,9 +5,10 @@
    full scan returns exactly what the accepted calls supplied.
 
    The behaviour under storage faults is derived from the flags REGENERATED from the source
-   (Gen/GenSchema.v: resolve_refresh_propagates, marker_failure_propagates, queue_failure_propagates): the
-   proofs below compute with their current values, so a source in which a failing refresh() no longer reaches
-   the caller breaks them. *)
+   (Gen/GenSchema.v: resolve_refresh_propagates, marker_failure_propagates, queue_failure_propagates,
+   files_exists_failure_propagates, and adopt_* for the GC-protection step of append_files): the
+   proofs below compute with their current values, so a source in which a failing refresh() -- or a failure
+   in the protection step of a pre-built-file call -- no longer reaches the caller breaks them. *)
 From Coq Require Import ZArith QArith List Bool Lia.
 Require Import DS.Model.Value DS.Gen.GenPrune DS.Model.Prune DS.Gen.GenSchema DS.Model.Schema DS.Model.SchemaTx.
 Require Import DS.Proofs.PruneProofs DS.Proofs.SchemaProofs.
@@ -59,18 +60,43 @@ Section TxProofs.
     intro N. specialize (H3 N). discriminate.
   Qed.
 
-  Lemma call_files_spec s1 w h fs w' wr t added :
-    call_files s1 w h fs = (w', wr, t, added) ->
+  (* ---- the protection step of append_files (regenerated flags, whatever their values) ---- *)
+  Lemma protect_tag ft m fs t : protect ft m fs = Some t -> t <> 0.
+  Proof.
+    unfold protect.
+    generalize adopt_marker_failure_propagates, adopt_listing_failure_propagates, adopt_refused_while_collecting, adopt_recheck_failure_propagates.
+    intros b1 b2 b3 b4. destruct (unprotected m fs); [discriminate|].
+    destruct ft as [[]|]; destruct b1, b2, b3, b4; intro H; inversion H; discriminate.
+  Qed.
+
+  Lemma protect_nothing ft m fs : unprotected m fs = [] -> protect ft m fs = None.
+  Proof. unfold protect. intros ->. reflexivity. Qed.
+
+  Lemma protect_no_window ft m fs : match ft with Some f => hits_protection f = false | None => True end -> protect ft m fs = None.
+  Proof. unfold protect. destruct (unprotected m fs); [reflexivity|]. destruct ft as [[]|]; simpl; intro H; try discriminate; reflexivity. Qed.
+
+  Lemma call_files_spec s1 ft m w h fs w' wr t added :
+    call_files s1 ft m w h fs = (w', wr, t, added) ->
     w_schema w' = w_schema w /\ w_snaps w' = w_snaps w /\ (t <> 0 -> added = []).
   Proof.
     unfold call_files. destruct s1 as [t1|]; [|intro H; inversion H; subst; auto].
     destruct (check_files t1 (cache_of w h) fs) as [c' ok].
-    destruct ok; intro H; inversion H; subst; simpl; repeat split; auto. intro N; contradiction N; reflexivity.
+    destruct ok; [destruct (protect ft m fs)|]; intro H; inversion H; subst; simpl; repeat split; auto.
+    intro N; contradiction N; reflexivity.
+  Qed.
+
+  (* a files call never writes a data file, and touches nothing of the world but the handle's layout cache *)
+  Lemma call_files_store s1 ft m w h fs w' wr t added :
+    call_files s1 ft m w h fs = (w', wr, t, added) -> wr = [] /\ w_store w' = w_store w /\ w_next w' = w_next w.
+  Proof.
+    unfold call_files. destruct s1 as [t1|]; [|intro H; inversion H; subst; auto].
+    destruct (check_files t1 (cache_of w h) fs) as [c' ok].
+    destruct ok; [destruct (protect ft m fs)|]; intro H; inversion H; subst; simpl; auto.
   Qed.
 
   (* C11_tx_rejected_call_no_trace *)
-  Lemma call_rejected w h c w' wr t added :
-    call_step conv w h c = (w', wr, t, added) ->
+  Lemma call_rejected w m h c w' wr t added :
+    call_step conv w m h c = (w', wr, t, added) ->
     w_schema w' = w_schema w /\ w_snaps w' = w_snaps w /\ (t <> 0 -> added = []).
   Proof.
     destruct c as [arg recs|fs|ft arg recs|ft fs]; unfold call_step.
@@ -112,19 +138,63 @@ Section TxProofs.
     - intro H; inversion H; subst. split; [exact (resolve_inr_tag _ _ _ R) | reflexivity].
   Qed.
 
-  Lemma fault_fails_closed w h :
-    (forall arg recs, call_step conv w h (CRecordsF FBefore arg recs) = (w, [], tag_storage_fault, []))
-    /\ (forall fs, call_step conv w h (CFilesF FBefore fs) = (w, [], tag_storage_fault, []))
-    /\ (forall ft arg recs w' wr t added, call_step conv w h (CRecordsF ft arg recs) = (w', wr, t, added) -> t <> 0 /\ added = []).
+  Lemma fault_fails_closed w m h :
+    (forall arg recs, call_step conv w m h (CRecordsF FBefore arg recs) = (w, [], tag_storage_fault, []))
+    /\ (forall fs, call_step conv w m h (CFilesF FBefore fs) = (w, [], tag_storage_fault, []))
+    /\ (forall ft arg recs w' wr t added, hits_records ft = true ->
+          call_step conv w m h (CRecordsF ft arg recs) = (w', wr, t, added) -> t <> 0 /\ added = [])
+    /\ (forall ft arg recs, hits_records ft = false -> call_step conv w m h (CRecordsF ft arg recs) = call_step conv w m h (CRecords arg recs))
+    /\ (forall ft fs w' wr t added, hits_protection ft = true -> unprotected m fs <> [] ->
+          call_step conv w m h (CFilesF ft fs) = (w', wr, t, added) ->
+          t <> 0 /\ added = [] /\ wr = [] /\ w_schema w' = w_schema w /\ w_snaps w' = w_snaps w /\ w_store w' = w_store w
+          /\ call_marks w m h (CFilesF ft fs) = [])
+    /\ (forall ft fs, hits_protection ft = false -> ft <> FBefore -> call_step conv w m h (CFilesF ft fs) = call_step conv w m h (CFiles fs))
+    /\ (forall ft fs, unprotected m fs = [] -> ft <> FBefore -> call_step conv w m h (CFilesF ft fs) = call_step conv w m h (CFiles fs)).
   Proof.
-    split; [reflexivity|]. split; [reflexivity|].
-    intros ft arg recs w' wr t added. unfold call_step, call_records. destruct ft.
-    - rewrite seen_unreadable. simpl. intro H; inversion H; subst. split; [discriminate | reflexivity].
-    - destruct (stage_records conv (seen_schema false w) true (seen_schema false w) w h arg recs) as [[[w1 fo] wr1] t1] eqn:S.
-      destruct (stage_records_marker _ _ _ _ _ _ _ _ _ _ S) as [T ->]. intro H; inversion H; subst. split; [exact T | reflexivity].
-    - rewrite seen_unreadable.
-      destruct (stage_records conv (seen_schema false w) false None w h arg recs) as [[[w1 fo] wr1] t1] eqn:S.
-      destruct (stage_records_late _ _ _ _ _ _ _ _ _ _ S) as [T ->]. intro H; inversion H; subst. split; [exact T | reflexivity].
+    split; [reflexivity|]. split; [reflexivity|]. split; [|split; [|split; [|split]]].
+    - intros ft arg recs w' wr t added Hr. unfold call_step, call_records. destruct ft; try discriminate Hr.
+      + rewrite seen_unreadable. simpl. intro H; inversion H; subst. split; [discriminate | reflexivity].
+      + destruct (stage_records conv (seen_schema false w) true (seen_schema false w) w h arg recs) as [[[w1 fo] wr1] t1] eqn:S.
+        destruct (stage_records_marker _ _ _ _ _ _ _ _ _ _ S) as [T ->]. intro H; inversion H; subst. split; [exact T | reflexivity].
+      + rewrite seen_unreadable.
+        destruct (stage_records conv (seen_schema false w) false None w h arg recs) as [[[w1 fo] wr1] t1] eqn:S.
+        destruct (stage_records_late _ _ _ _ _ _ _ _ _ _ S) as [T ->]. intro H; inversion H; subst. split; [exact T | reflexivity].
+      + change (if files_exists_failure_propagates then None else seen_schema false w) with (@None (option ischema)).
+        destruct (stage_records conv (seen_schema false w) false None w h arg recs) as [[[w1 fo] wr1] t1] eqn:S.
+        destruct (stage_records_late _ _ _ _ _ _ _ _ _ _ S) as [T ->]. intro H; inversion H; subst. split; [exact T | reflexivity].
+    - intros ft arg recs Hr. destruct ft; try discriminate Hr; reflexivity.
+    - intros ft fs w' wr t added Hp Hu H.
+      assert (P : exists t0, protect (Some ft) m fs = Some t0 /\ protect_left (Some ft) m fs = []).
+      { unfold protect_left, protect. destruct (unprotected m fs) as [|i r]; [contradiction Hu; reflexivity|].
+        destruct ft; try discriminate Hp; eexists; split; reflexivity. }
+      destruct P as [t0 [P PL]]. pose proof (protect_tag _ _ _ _ P) as T0.
+      assert (E : call_step conv w m h (CFilesF ft fs) = call_files (seen_schema false w) (Some ft) m w h fs)
+        by (destruct ft; try discriminate Hp; reflexivity).
+      assert (M : call_marks w m h (CFilesF ft fs)
+                  = match seen_schema false w with
+                    | None => []
+                    | Some t1 => if snd (check_files t1 (cache_of w h) fs) then protect_left (Some ft) m fs else []
+                    end) by (destruct ft; try discriminate Hp; reflexivity).
+      rewrite E in H. destruct (call_files_spec _ _ _ _ _ _ _ _ _ _ H) as [S1 [S2 _]].
+      destruct (call_files_store _ _ _ _ _ _ _ _ _ _ H) as [W [S3 _]].
+      assert (G : t <> 0 /\ added = []).
+      { revert H. unfold call_files. rewrite seen_readable.
+        destruct (check_files (w_schema w) (cache_of w h) fs) as [c' ok].
+        destruct ok; [rewrite P|]; intro H; inversion H; subst; split; auto; discriminate. }
+      destruct G as [G1 G2]. repeat split; auto.
+      rewrite M, PL. destruct (seen_schema false w) as [t1|]; [|reflexivity]. destruct (snd (check_files t1 (cache_of w h) fs)); reflexivity.
+    - intros ft fs Hp Nb. destruct ft; try discriminate Hp; try (contradiction Nb; reflexivity).
+      unfold call_step, call_files. rewrite (protect_no_window (Some FAfterWrite)), (protect_no_window None); simpl; auto.
+    - intros ft fs Hu Nb. destruct ft; try (contradiction Nb; reflexivity);
+        unfold call_step, call_files; rewrite !(protect_nothing _ _ _ Hu); reflexivity.
+  Qed.
+
+  (* the marker bookkeeping of a transaction: a call that raised leaves the set of marked files as it was (the
+     protection step of a refused adoption removed what it wrote: protect_left above), an accepted call adds its files *)
+  Lemma marked_enqueue q wr added :
+    forall i, In i (marked (enqueue q wr added)) <-> In i (marked q) \/ In i wr \/ In i (map df_id added).
+  Proof.
+    intro i. unfold marked, enqueue. simpl. rewrite map_app, !in_app_iff. tauto.
   Qed.
 
   (* ---- the calls of a transaction ---- *)
@@ -136,10 +206,10 @@ Section TxProofs.
   Proof.
     induction cs as [|c cs IH]; simpl; intros w q w' q' tr H.
     - inversion H; subst. simpl. rewrite app_nil_r. repeat split; auto. constructor.
-    - destruct (call_step conv w h c) as [[[w1 wr] t] added] eqn:C.
+    - destruct (call_step conv w (marked q) h c) as [[[w1 wr] t] added] eqn:C.
       destruct (run_calls conv w1 (enqueue q wr added) h cs) as [[w2 q2] tr2] eqn:R.
       inversion H; subst. destruct (IH _ _ _ _ _ R) as [Q [Hn [S1 S2]]].
-      destruct (call_rejected _ _ _ _ _ _ _ C) as [C1 [C2 C3]].
+      destruct (call_rejected _ _ _ _ _ _ _ _ C) as [C1 [C2 C3]].
       simpl in Q. simpl. rewrite Q, app_assoc. repeat split; auto; try congruence.
       constructor; auto.
   Qed.
@@ -148,7 +218,7 @@ Section TxProofs.
   Proof.
     induction cs as [|c cs IH]; simpl; intros w q w' q' tr H.
     - inversion H; reflexivity.
-    - destruct (call_step conv w h c) as [[[w1 wr] t] added].
+    - destruct (call_step conv w (marked q) h c) as [[[w1 wr] t] added].
       destruct (run_calls conv w1 (enqueue q wr added) h cs) as [[w2 q2] tr2] eqn:R.
       inversion H; subst. simpl. f_equal. exact (IH _ _ _ _ _ R).
   Qed.
@@ -290,28 +360,30 @@ Section TxProofs.
       - intros f [].
     Qed.
 
-    Lemma call_files_invp s1 w h fs w' wr t added : seen_ok s1 -> InvP w -> Forall Q fs ->
-      call_files s1 w h fs = (w', wr, t, added) ->
+    Lemma call_files_invp s1 ft m w h fs w' wr t added : seen_ok s1 -> InvP w -> Forall Q fs ->
+      call_files s1 ft m w h fs = (w', wr, t, added) ->
       InvP w' /\ forall f, In f added -> P f.
     Proof.
       intros [->| ->] I QF; unfold call_files; [intro H; inversion H; subst; split; [exact I | intros f []]|].
       destruct (check_files (Some ts) (cache_of w h) fs) as [c' ok] eqn:CF.
       destruct (check_files_ok _ _ _ _ (invp_cache_of w h I) CF) as [C1 Pf].
       pose proof (invp_set_cache w h c' I C1) as I1.
-      destruct ok; intro H; inversion H; subst; (split; [exact I1|]).
+      destruct ok; [destruct (protect ft m fs)|]; intro H; inversion H; subst; (split; [exact I1|]).
+      - intros f [].
       - intros f Hf. apply in_map_iff in Hf. destruct Hf as [p [<- Hp]].
         apply P_files; [rewrite Forall_forall in QF; exact (QF p Hp) | exact (Pf eq_refl p Hp)].
       - intros f [].
     Qed.
 
-    Lemma call_step_invp w h c w' wr t added : InvP w -> call_Q c -> call_step conv w h c = (w', wr, t, added) ->
+    Lemma call_step_invp w m h c w' wr t added : InvP w -> call_Q c -> call_step conv w m h c = (w', wr, t, added) ->
       InvP w' /\ forall f, In f added -> P f.
     Proof.
       intros I QC. pose proof (seen_schema_ok false w I) as K0. pose proof (seen_schema_ok true w I) as K1.
       destruct c as [arg recs|fs|ft arg recs|ft fs]; unfold call_step.
       - apply call_records_invp; assumption.
       - apply call_files_invp; assumption.
-      - destruct ft; apply call_records_invp; assumption.
+      - destruct ft; apply call_records_invp;
+          first [assumption | destruct files_exists_failure_propagates; [left; reflexivity | assumption]].
       - destruct ft; apply call_files_invp; assumption.
     Qed.
 
@@ -320,10 +392,10 @@ Section TxProofs.
     Proof.
       induction cs as [|c cs IH]; simpl; intros w q w' q' tr I Qf QC H.
       - inversion H; subst. auto.
-      - destruct (call_step conv w h c) as [[[w1 wr] t] added] eqn:C.
+      - destruct (call_step conv w (marked q) h c) as [[[w1 wr] t] added] eqn:C.
         destruct (run_calls conv w1 (enqueue q wr added) h cs) as [[w2 q2] tr2] eqn:R.
         inversion H; subst. inversion QC as [|? ? QC1 QC2]; subst.
-        destruct (call_step_invp _ _ _ _ _ _ _ I QC1 C) as [I1 Ad].
+        destruct (call_step_invp _ _ _ _ _ _ _ _ I QC1 C) as [I1 Ad].
         eapply IH; [exact I1| |exact QC2|exact R]. simpl. intros f Hf. apply in_app_or in Hf. destruct Hf; auto.
     Qed.
 
@@ -453,17 +525,17 @@ Section TxProofs.
         end
       else [].
 
-    Fixpoint calls_expected (w : world) (h : Z) (cs : list call) : list srow :=
+    Fixpoint calls_expected (w : world) (q : txstate) (h : Z) (cs : list call) : list srow :=
       match cs with
       | [] => []
       | c :: cs' =>
-        match call_step conv w h c with
-        | (w', _, t, _) => call_expected c t ++ calls_expected w' h cs'
+        match call_step conv w (marked q) h c with
+        | (w', wr, t, added) => call_expected c t ++ calls_expected w' (enqueue q wr added) h cs'
         end
       end.
 
     Definition tx_expected (w : world) (t : txn) : list srow :=
-      match t_end t with EndCommit true => calls_expected w (t_handle t) (t_calls t) | _ => [] end.
+      match t_end t with EndCommit true => calls_expected w tx_empty (t_handle t) (t_calls t) | _ => [] end.
 
     Fixpoint txs_expected (w : world) (txs : list txn) : list srow :=
       match txs with [] => [] | t :: r => tx_expected w t ++ txs_expected (run_tx conv w t) r end.
@@ -488,7 +560,7 @@ Section TxProofs.
       split; [reflexivity|]. simpl. exact (convert_canon rnd32 conv CS ts recs rows V CV).
     Qed.
 
-    Lemma call_step_rows w h c w' wr t added : InvT w -> call_step conv w h c = (w', wr, t, added) ->
+    Lemma call_step_rows w mk h c w' wr t added : InvT w -> call_step conv w mk h c = (w', wr, t, added) ->
       flat_map df_rows added = call_expected c t.
     Proof.
       intro I. pose proof (seen_schema_ok has_layout false w I) as K0. pose proof (seen_schema_ok has_layout true w I) as K1.
@@ -500,28 +572,31 @@ Section TxProofs.
         destruct fo as [f|]; intro H; inversion H; subst.
         - destruct G as [-> G]. simpl. rewrite app_nil_r. exact G.
         - destruct (Z.eqb_spec t 0); [contradiction | reflexivity]. }
-      assert (Fl : forall s1 fs, call_files s1 w h fs = (w', wr, t, added) ->
+      assert (Fl : forall s1 ft fs, call_files s1 ft mk w h fs = (w', wr, t, added) ->
                   flat_map df_rows added = if t =? 0 then flat_map pf_rows fs else []).
-      { intros s1 fs. unfold call_files. destruct s1 as [t1|]; [|intro H; inversion H; subst; reflexivity].
-        destruct (check_files t1 (cache_of w h) fs) as [c' ok]. destruct ok; intro H; inversion H; subst; [|reflexivity].
-        simpl. apply rows_to_dfile. }
+      { intros s1 ft fs. unfold call_files. destruct s1 as [t1|]; [|intro H; inversion H; subst; reflexivity].
+        destruct (check_files t1 (cache_of w h) fs) as [c' ok]. destruct ok; [|intro H; inversion H; subst; reflexivity].
+        destruct (protect ft mk fs) as [t0|] eqn:P; intro H; inversion H; subst.
+        - pose proof (protect_tag _ _ _ _ P) as Tg. destruct (Z.eqb_spec t 0); [contradiction | reflexivity].
+        - simpl. apply rows_to_dfile. }
       unfold call_expected. destruct c as [arg recs|fs|ft arg recs|ft fs]; unfold call_step.
       - apply R; assumption.
       - apply Fl.
-      - destruct ft; apply R; assumption.
+      - destruct ft; apply R;
+          first [assumption | destruct files_exists_failure_propagates; [left; reflexivity | assumption]].
       - destruct ft; apply Fl.
     Qed.
 
     Lemma run_calls_rows h cs : forall w q w' q' tr, InvT w -> run_calls conv w q h cs = (w', q', tr) ->
-      flat_map df_rows (flat_map snd tr) = calls_expected w h cs.
+      flat_map df_rows (flat_map snd tr) = calls_expected w q h cs.
     Proof.
       induction cs as [|c cs IH]; simpl; intros w q w' q' tr I H.
       - inversion H; subst. reflexivity.
-      - destruct (call_step conv w h c) as [[[w1 wr] t] added] eqn:C.
+      - destruct (call_step conv w (marked q) h c) as [[[w1 wr] t] added] eqn:C.
         destruct (run_calls conv w1 (enqueue q wr added) h cs) as [[w2 q2] tr2] eqn:R.
         inversion H; subst. simpl. rewrite flat_map_app.
-        rewrite (call_step_rows _ _ _ _ _ _ _ I C).
-        destruct (call_step_invp has_layout any_pfile layout_records layout_files _ _ _ _ _ _ _ I (Forall_inv (any_calls [c])) C) as [I1 _].
+        rewrite (call_step_rows _ _ _ _ _ _ _ _ I C).
+        destruct (call_step_invp has_layout any_pfile layout_records layout_files _ _ _ _ _ _ _ _ I (Forall_inv (any_calls [c])) C) as [I1 _].
         rewrite (IH _ _ _ _ _ I1 R). reflexivity.
     Qed.
 
